@@ -345,6 +345,35 @@ func tarInputs(r *hx.Rng, tier string) []input {
 	return out
 }
 
+// zipTarInputs: tar of zipdir.bin (an empty end-of-directory record, so that the directory parser has nothing to read) and
+// contents.zip (any bytes), with scripts of ReadAt calls around the end of the member; also a third member / a wrong order
+func zipTarInputs(r *hx.Rng, tier string) []input {
+	eocd := append([]byte{0x50, 0x4b, 0x05, 0x06}, make([]byte, 18)...)
+	var out []input
+	for _, n := range []int{0, 1, 511, 512, 513, 1300} {
+		body := r.Bytes(n)
+		t := tarOfMembers([][2][]byte{{[]byte("zipdir.bin"), eocd}, {[]byte("contents.zip"), body}})
+		scripts := []string{
+			"-",
+			fmt.Sprintf("4@0;%d@4", n),            // everything in two calls (the second ends with the member)
+			fmt.Sprintf("%d@0;1@%d", n+1, n+5),     // past the end, then again
+			fmt.Sprintf("3@%d;2@0", n/2),           // skip, then backwards
+			fmt.Sprintf("1@%d;1@%d", n, n+1),       // at and behind the end
+			fmt.Sprintf("0@%d;5@%d", n, n/3),       // empty read at the end, then backwards or not
+			fmt.Sprintf("2@%d;2@%d;2@%d", 1, n/2+3, n+7),
+		}
+		for _, sc := range scripts {
+			out = append(out, input{"ziptar", sc, t, ""})
+		}
+	}
+	body := r.Bytes(700)
+	out = append(out, input{"ziptar", "10@0;690@10;1@700", tarOfMembers([][2][]byte{{[]byte("zipdir.bin"), eocd}, {[]byte("contents.zip"), body}, {[]byte("more"), r.Bytes(5)}}), ""})
+	out = append(out, input{"ziptar", "10@0;700@10;1@800", tarOfMembers([][2][]byte{{[]byte("zipdir.bin"), eocd}, {[]byte("contents.zip"), body}, {[]byte("more"), r.Bytes(5)}}), ""})
+	out = append(out, input{"ziptar", "1@0", tarOfMembers([][2][]byte{{[]byte("contents.zip"), body}, {[]byte("zipdir.bin"), eocd}}), ""})
+	out = append(out, input{"ziptar", "1@0", tarOfMembers([][2][]byte{{[]byte("zipdir.bin"), eocd}}), ""})
+	return out
+}
+
 func pageInputs(r *hx.Rng, tier string) []input {
 	var out []input
 	for _, n := range []int{0, 1, 4095, 4096, 4097, 8192, 9000} {
@@ -379,6 +408,9 @@ func Gen(w *bufio.Writer, seed uint64, tier string) {
 		genRuns(w, r, in, tier)
 	}
 	for _, in := range pageInputs(r, tier) {
+		genRuns(w, r, in, tier)
+	}
+	for _, in := range zipTarInputs(r, tier) {
 		genRuns(w, r, in, tier)
 	}
 	for _, in := range debInputs(r, tier) {
